@@ -17,7 +17,7 @@ import random
 from harness import core, learners as L, xlearner as X
 
 MODULES = ["AdaptiveProofs.Props.C09"]
-KINDS = ["l1d", "l1d_curv", "l1d_vec", "l1d_tri", "lnd2", "lnd3", "avg", "avg1d", "seq", "integ",
+KINDS = ["l1d", "l1d_curv", "l1d_vec", "l1d_tri", "lnd2", "lnd3", "l2d", "avg", "avg1d", "seq", "integ",
          "bal:l1d", "bal:seq", "bal:avg", "bal:lnd2", "bal:cycle:l1d", "bal:cycle:seq", "bal:npoints:avg", "bal:loss:l1d", "ds:l1d", "ds:seq", "ds:lnd2"]
 
 
@@ -129,7 +129,12 @@ def run(ctx):
             aborted[r["kind"] + ":" + r["aborted"]] = aborted.get(r["kind"] + ":" + r["aborted"], 0) + 1
         if r["fail"]:
             cl, det = r["fail"]
-            failures.append({"clause": cl, "signature": f"C09.{cl}.{r['kind']}", "detail": det,
+            sig = f"C09.{cl}.{r['kind']}"
+            if r["kind"].split(":")[-1] == "l2d" and cl in ("twin_answers", "commit_differs", "repeat_differs"):
+                sig = "C09.later_answers:l2d_stack_cache"
+            if r["kind"].split(":")[-1] == "l2d" and cl in ("twin_state", "state_changed") and "['lossF']" in det:
+                sig = "C09.lossF:l2d_pending_set_order"
+            failures.append({"clause": cl, "signature": sig, "detail": det,
                              "replay": {"kind": r["kind"], "seed": r["seed"], "nops": r["nops"]}})
     return core.conclude(
         ctx, proof, [], failures,
@@ -142,8 +147,7 @@ def run(ctx):
                     "to the code by the lock-step checks C01/C02/C15/C16/C17/C18. LearnerND and IntegratorLearner implement the "
                     "roll-back with utils.restore (snapshot of the attribute dictionary): for them only the twin oracle applies.",
         trusted=core.COMMON_TRUSTED + ["copy.deepcopy of a learner's __dict__ is an exact snapshot (utils.restore)"],
-        assumptions=["Learner2D is not exercised: in this environment it cannot get past its four corner points (NumPy 2 removed 2-D "
-                     "np.cross; scipy.interpolate.interpnd.estimate_gradients_2d_global is gone)"],
+        assumptions=["Learner2D is exercised since its NumPy 2 / SciPy 1.15 breakage was repaired (fix: commits)"],
         extra={"kinds": dist, "histories_aborted_by_exception_on_both_twins": aborted},
         partial=["LearnerND / IntegratorLearner / Learner2D have no Lean model of their ask roll-back: twin oracle only"],
     )
